@@ -55,7 +55,8 @@ class SpecFn:
     REGISTRY: Dict[str, "SpecFn"] = {}
 
     def __init__(self, name, args: List[str], ret: str, body: Callable, py: Callable, ascii=False, tests=None,
-                 bases=(), uses=()):
+                 bases=(), uses=(), depth=1):
+        self.depth = depth        # how many levels of the recursion each application is unfolded
         self.bases = list(bases)  # base-case arguments whose definition instance is always supplied
         self.uses = list(uses)    # other spec functions applied raw (via .f) inside the body
         SpecFn.REGISTRY[name] = self
@@ -98,12 +99,17 @@ class SpecFn:
             self._assume_instance([_term(a, v) for a, v in zip(self.args, b)])
         return _wrap(self.ret, self.f(*terms), self.ascii)
 
-    def _assume_instance(self, terms):
+    def _assume_instance(self, terms, depth=None):
+        depth = self.depth if depth is None else depth
         d = self.definition_at(*terms)
         ctx().assume(d)
         for u in self.uses:  # spec functions applied raw inside the body get their instance there too
             for app in _apps(d, u.f):
                 ctx().assume(u.definition_at(*app.children()))
+        if depth > 1:
+            body = d.arg(1)
+            for app in _apps(body, self.f):  # the recursive calls of this instance: unfold them once more
+                self._assume_instance([z3.simplify(a) for a in app.children()], depth - 1)
 
     @property
     def rec(self):
@@ -161,7 +167,11 @@ def confirm_sat(assertions, timeout_s=10.0):
         new = [z3.substitute_funs(a, *subs) for a in assertions]
     except z3.Z3Exception:
         return "unknown"
-    return core._isolated_check(new, timeout_s, False)[0]
+    r = core._isolated_check(new, min(timeout_s, 5.0), False)[0]
+    if r == "unknown":
+        # the recursive-definition form through the whole portfolio (define-fun-rec in SMT-LIB)
+        r = core._run_cli(core._smt2_text(new), int(max(1, timeout_s)))[0]
+    return r
 
 
 class Lemma:
